@@ -11,13 +11,13 @@ CHECKS = {
  "C01": ("exploration", "3.C01", "deterministic simulation, fault-free configuration: seeded call histories vs RefCS satisfaction oracle",
          "Seeded simulation of complete prover->channel->verifier sessions over generated call histories (all API calls incl. randomized closures, three curves, independent capacity histories on both sides, non-default bases); the model decides satisfiability, the real code must prove, decode and accept. Sampling, not proof: right level because the property is universal over programs and the only oracle that scales is an executable model."),
  "C02": ("exploration", "3.C02", "deterministic simulation with fault injection into prover memory (wire, gate triple via hook, constant); model-decided two-sided oracle",
-         "Each run injects exactly one fault into the witness / statement of an otherwise satisfiable session and asks the model whether the assignment is now unsatisfied; unsatisfied => the emitted proof must be rejected, still satisfied => accepted. Every (fault kind x phase) cell is populated; positions are drawn incl. first/last/boundary gates."),
+         "Each run injects exactly one fault into the witness / statement of an otherwise satisfiable session and asks the model whether the assignment is now unsatisfied; unsatisfied => the emitted proof must be rejected, still satisfied => accepted. Every (fault kind x phase) cell is populated; positions are drawn incl. first/last/boundary gates. Also pairs of faults with cancelling errors (two adjacent constraint rows; two gates, biased to the phase boundary), which only a weight collision lets through. A guard-off leg (same sources, /repo linked without verif-hooks, no gate overwrite) runs a slice first."),
  "C03": ("exploration", "3.C03", "deterministic simulation: every delivery judged by the real verifier and by an executable reference verifier (separate relations, explicit folding)",
-         "Differential check against RefVerifier, which re-derives all challenges with its own schedule, evaluates relations (a),(b),(c) separately and folds the generators explicitly round by round. Deliveries: honest, honest-from-bad-witness, adversarially modified in any field incl. compensating shifts; an adaptive adversary (forgeries tuned to a weight derived at every earlier schedule position, coordinated pair shifts, t_x rewritten so that relation (b) holds) and an adversarial prover node (reference prover with chosen, e.g. zeroed, nonces)."),
+         "Differential check against RefVerifier, which re-derives all challenges with its own schedule, evaluates relations (a),(b),(c) separately and folds the generators explicitly round by round. Deliveries: honest, honest-from-bad-witness, adversarially modified in any field incl. compensating shifts; an adaptive adversary (forgeries tuned to a weight derived at every earlier schedule position, coordinated pair shifts, t_x rewritten so that relation (b) holds) and an adversarial prover node (reference prover with chosen, e.g. zeroed, nonces). The adversarial prover can also move mass between the first- and second-phase commitments before they are absorbed (relations reject; a verifier whose coefficients coincide for some shape accepts). One-sided list surgery in the tamper catalogue. Guard-off leg."),
  "C04": ("fault_enumeration", "3.C04", "channel fault enumeration on accepted proofs: every single-bit flip, full field-level tamper catalogue, decoded-object identity oracle",
-         "For each sampled accepted proof the channel adversary enumerates every single-bit flip of the encoding and the complete field-level catalogue (every slot x every perturbation, every pair swap, round surgery). Exhaustive over the fault space of each sampled proof."),
+         "For each sampled accepted proof the channel adversary enumerates every single-bit flip of the encoding and the complete field-level catalogue (every slot x every perturbation, every pair swap, round surgery). Exhaustive over the fault space of each sampled proof. Round surgery includes a surplus / missing point in ONE list only. Guard-off leg."),
  "C05": ("exploration", "3.C05", "deterministic simulation with misdelivery and verifier-side statement/context deviation faults; deviation-class oracle plus reference relations",
-         "An accepted proof is delivered to a verifier whose statement or bound context deviates in exactly one way from every class the property lists, to the verifier of an unrelated session, and to twin verifiers with the identical statement. Deviation => reject, identical => accept; every delivery is also held to the reference relations."),
+         "An accepted proof is delivered to a verifier whose statement or bound context deviates in exactly one way from every class the property lists, to the verifier of an unrelated session, and to twin verifiers with the identical statement. Deviation => reject, identical => accept; every delivery is also held to the reference relations. Includes constraints that name a commitment through a hand-built handle BEFORE it is committed (forward references), on both roles or on the verifier only. Guard-off leg."),
  "C06": ("exploration", "3.C06", "recorded Merlin operation histories of both roles checked against an executable reference schedule",
          "The vendored Merlin records every transcript operation; the main-transcript history of prover and verifier (labels, exact absorbed bytes, challenge outputs) must equal the schedule RefSchedule builds from the statement and the received proof; rejected deliveries must be a prefix ending at the failed validation; r comes from a clone taken after the last absorbed message; follow-up challenges agree; the same through batch_verify (member transcripts)."),
  "C07": ("exploration", "3.C07", "deterministic simulation of a batch-verifying server fed by many sessions, incl. adversarially correlated (+d/-d, zero-sum) members; oracle = conjunction of individual real verdicts",
@@ -37,7 +37,7 @@ CHECKS = {
  "C09": ("exploration", "3.C09", "RNG-seam simulation: recorded RNG life cycle, role attribution by single-draw fault injection, algebraic opening against an independent reference prover",
          "Keying of the transcript RNG is read from the recorded operations; every RNG draw is perturbed in turn to attribute it to a blinding role through the first proof component that moves (by delta times B~, G_i or H_i); the map must be total, injective, non-zero, distinct; RefProver then reproduces every proof component from (witness, challenges, attributed nonces). Independence and replayability across external seeds, incl. stuck external RNG."),
  "C10": ("exploration", "3.C10", "sub-protocol session simulation with a reference prover and verifier that fold generators explicitly; tamper catalogue",
-         "The created proof must equal the reference folding round by round for k in 0..=7 over vector/factor families; every tampered variant is judged by real verify and by explicit folding; verdicts must coincide, degenerate identity cross terms are rejected by both."),
+         "The created proof must equal the reference folding round by round for k in 0..=7 over vector/factor families; every tampered variant is judged by real verify and by explicit folding; verdicts must coincide, degenerate identity cross terms are rejected by both. Factor vectors mix ones and non-ones in every arrangement; one-sided surplus / missing points. (No guard-off leg: the type is only reachable through the guarded re-export.)"),
  "C15": ("exploration", "3.C15", "session-simulation workload profile: one-constraint circuits over random expression trees, model evaluator as oracle, statement-constant fault",
          "Weakest fit (operators are pure functions): the observation point is the verdict of a complete two-party run, the oracle is the model's own AST evaluator; accept leg and off-by-delta reject leg; per-operator-impl probes."),
 }
